@@ -36,18 +36,18 @@ type Module struct {
 
 // CaseRun is a case plus everything observed about it.
 type CaseRun struct {
-	Case      *pgen.Case
-	Dir       string
-	Gen       CLIResult
-	Generated bool
-	Written   map[string][]byte // emitted files (relative to module dir) after generation
-	BuildErr  string            // compiler diagnostics for packages of this case
-	Built     bool
-	Events    []json.RawMessage
-	Methods   []vref.MethodEvent
-	Crashed   string // fatal error output when the batch died inside this case
-	Began     bool
-	Ended     bool
+	Case         *pgen.Case
+	Dir          string
+	Gen          CLIResult
+	Generated    bool
+	Written      map[string][]byte // emitted files (relative to module dir) after generation
+	BuildErr     string            // compiler diagnostics for packages of this case
+	Built        bool
+	Events       []json.RawMessage
+	Methods      []vref.MethodEvent
+	Crashed      string // fatal error output when the batch died inside this case
+	Began        bool
+	Ended        bool
 	HarnessPanic string
 }
 
